@@ -715,6 +715,9 @@ def evaluate(ctx, job, meta, obs, tables, answers=None):
                     lost.append(f"{qn(sdefs, i)}" + (f" = `{spell_sig(job['sigs'][k]['sig'])}` (line {job['sigs'][k]['line']})" if k is not None else "") + f", expected at {q}")
                 why += " — receives the files of declarations with different names, whose own files were not written: " + "; ".join(lost)
                 extra = {"declarations": [qn(sdefs, i) for i, _ in gone[:8]], "expected_paths": [q for _, q in gone[:8]]}
+            if meta.get("keyword"):
+                why += (f" — the program has namespace components named like the reserved word '{meta['keyword']}' and like what an escaping would turn it "
+                        f"into ({', '.join(meta['look_alikes'])}): distinct namespaces must give distinct files or the target must be refused")
             fails.append({"key": "overwrite:unexplained", "detail": p + why, "path": p, **extra})
             continue
         c = cs[0]
